@@ -19,7 +19,7 @@ META = dict(
                'scared.distinguishers.partitioned:ANOVADistinguisherMixin._compute_metric', 'scared.distinguishers.partitioned:NICVDistinguisherMixin._compute_metric',
                'scared.distinguishers.partitioned:SNRDistinguisherMixin._compute_metric', 'scared.distinguishers.base:DistinguisherMixin.update/compute'],
     bounds=dict(quick='n = 4 traces in two batches (kernel 1 then kernel 2), 2 samples; every assignment of the 4 intermediate values over {0, 1, 2, undeclared 7} '
-                      '(one word) and a set of 2-word assignments; class sets [0,1,2] explicit and automatic (first batch <= 8 -> 9 classes); traces symbolic reals; precision float64 and float32',
+                      '(one word) and a set of 2-word assignments; class sets [0,1,2] explicit and automatic (first-batch maximum 2, 8 -> 9 classes; 9, 63 -> 64 classes; 64, 255 -> 256 classes); traces symbolic reals; precision float64 and float32',
                 thorough='n = 5'),
     assumptions=['floats are exact reals (rounding at the requested precision abstracted)', 'class patterns are explored by forking (concrete labels per path), trace values are symbolic'],
     outside=['more than 5 traces per query', 'class sets above 9 classes with symbolic traces (covered structurally by C11 / C12)'],
@@ -42,6 +42,9 @@ def jobs(tier, seed):
                     for first in range(4 if mode == 'explicit' else 3):
                         js.append(dict(name=f'{cls}-{mode}-{p}-n{n}-v{first}', cls=cls, mode=mode, p=p, n=n, first=first, words=1))
                 js.append(dict(name=f'{cls}-{mode}-{p}-n{n}-2words', cls=cls, mode=mode, p=p, n=n, first=None, words=2))
+        # automatic class sets at the documented thresholds: a first batch whose maximum is exactly 8 / 9 / 63 / 64 / 255
+        for top in (8, 9, 63, 64, 255):
+            js.append(dict(name=f'{cls}-auto-top{top}-float64-n{n}', cls=cls, mode='auto', p='float64', n=n, first=0, words=1, top=top))
     return js
 
 
@@ -76,6 +79,10 @@ def run_job(job):
     kind = clsname.replace('Distinguisher', '')
     S_ = 2
     dom = [0, 1, 2, UND] if mode == 'explicit' else [0, 1, 2]
+    top = job.get('top')
+    if top is not None:
+        dom = [top, 0, 3]                  # trace 0 (first batch) carries the maximum
+    auto_declared = list(range(9 if (top is None or top < 9) else (64 if top < 64 else 256)))
     P = L.MODS['partitioned']
     two_word_patterns = [([0, 0, 1, 1], [0, 1, 2, UND if mode == 'explicit' else 2]), ([1, 1, 1, 1], [0, 1, 0, 1]), ([0, 1, 2, 0], [2, 2, 0, 0]),
                          ([UND if mode == 'explicit' else 0, 0, 0, 1], [1, 2, 1, 2])]
@@ -90,6 +97,11 @@ def run_job(job):
             lab = [[pat[0][i % 4], pat[1][i % 4]] for i in range(n)]
         y = S.const(rnp.array(lab, dtype='uint8'))
         x = S.sym_real('x', (n, S_), 'float64' if p == 'float64' else 'uint8')
+        if p != 'float64':
+            # integer traces: values are those of the dtype, and arithmetic carried out in an integer dtype must not leave it (it would wrap)
+            CTX.int_range = True
+            for v in S.terms(x):
+                ex.assume(z3.And(E.R(v) >= 0, E.R(v) <= 255))
         d = getattr(P, clsname)(partitions=[0, 1, 2] if mode == 'explicit' else None, precision=p)
         k = n // 2
         d.update(x[:k], y[:k])
@@ -105,13 +117,13 @@ def run_job(job):
         ok = tuple(out.shape) == (Wn, S_) and d.processed_traces == n
 
         def wit(what, w=None, s=None):
-            return lambda m: dict(kind='part', cls=clsname, mode=mode, precision=p, split=k, labels=lab, what_failed=what, word=w, sample=s, x=L.model_values(m, x),
+            return lambda m: dict(kind='part', cls=clsname, mode=mode, precision=p, split=k, labels=lab, top=top, what_failed=what, word=w, sample=s, x=L.model_values(m, x),
                                   key=dict(kind='part', cls=clsname, what=what))
         pr.prove(z3.BoolVal(not changed), f'{clsname}: compute() leaves every accumulator unchanged (changed: {changed})', wit('compute-mutates-state'))
         pr.prove(z3.BoolVal(ok), f'{clsname}: result shape (words, samples) = {(Wn, S_)}, processed_traces = {n}', wit('layout'))
         if not ok or changed:
             return
-        declared = [0, 1, 2] if mode == 'explicit' else list(range(9))
+        declared = [0, 1, 2] if mode == 'explicit' else auto_declared
         entries = []
         for w in range(Wn):
             for s in range(S_):
@@ -191,7 +203,8 @@ def replay(w):
     x0 = L.to_numpy(w['x'])
     rnd = random.Random(11)
     tries = [x0] + [np.array([rnd.randrange(1, 200) for _ in range(x0.size)], dtype=x0.dtype).reshape(x0.shape) for _ in range(6)]
-    declared = [0, 1, 2] if w['mode'] == 'explicit' else list(range(9))
+    top = w.get('top')
+    declared = [0, 1, 2] if w['mode'] == 'explicit' else list(range(9 if (top is None or top < 9) else (64 if top < 64 else 256)))
     tol = 2e-4 if w['precision'] == 'float32' else 1e-9
     for X in tries:
         d = cls(partitions=[0, 1, 2] if w['mode'] == 'explicit' else None, precision=w['precision'])
